@@ -4,7 +4,7 @@
 # On success copies it to /verif/seeded/<ID>-<v>/ with meta.json.
 set -u
 ID=$1; V=$2
-PID=${ID#[SVWXY]}   # property id (later agent directories are named S<property> / V<property>)
+PID=${ID#[SVWXYZ]}   # property id (later agent directories are named S<property> / V<property>)
 SRC=/tmp/agents/$ID-out/$V
 WT=/tmp/confirm-$ID-$V
 TGT=/tmp/confirm-target   # shared target dir to save build time (sequential use)
